@@ -23,6 +23,7 @@ let parse_op (s : string) : op =
   | ["nh"; i] -> ONew (n_ i, false)
   | ["np"; i] -> ONew (n_ i, true)
   | ["as"; d; r] -> OAssign (parse_loc d, parse_loc r)
+  | ["al"; d; r] -> OAlias (parse_loc d, parse_loc r)
   | ["rs"; l] -> OReset (parse_loc l)
   | ["sw"; a; b] -> OSwap (parse_loc a, parse_loc b)
   | ["cc"; d; r] -> OConstCast (parse_loc d, parse_loc r)
@@ -33,6 +34,7 @@ let parse_op (s : string) : op =
 let kmem = nat_of_int 2   (* member Ref slots per Item; the harness's Item has the same number *)
 
 let opt_s = function None -> "_" | Some n -> string_of_int (int_of_nat n)
+let ref_s = function None -> "_" | Some (n, c) -> string_of_int (int_of_nat n) ^ (if c then "" else "~")
 
 let rec seq_down base n = if n <= 0 then [] else (base + n - 1) :: seq_down base (n - 1)
 
@@ -61,11 +63,11 @@ let show_dump (nslab : nat) (s : state) (t : int) : string =
       Buffer.add_string b (Printf.sprintf "%d%s%d.%d[%s]b%dd%d " id
         (match st with Live -> "L" | Releasing -> "R" | Pooled -> "P" | Dead -> "X")
         (int_of_nat ob.o_cnt) (int_of_nat ob.o_val)
-        (String.concat "," (List.map opt_s ob.o_mem))
+        (String.concat "," (List.map ref_s ob.o_mem))
         (int_of_nat ob.o_births) (int_of_nat ob.o_deaths))) s.s_heap;
   Buffer.add_string b (Printf.sprintf "#%d " !dead);
   let th = List.nth s.s_thr t in
-  Buffer.add_string b (Printf.sprintf "(%s) " (String.concat "," (List.map opt_s th.t_stk)));
+  Buffer.add_string b (Printf.sprintf "(%s) " (String.concat "," (List.map ref_s th.t_stk)));
   let p = s.s_pool in
   Buffer.add_string b (Printf.sprintf "%d/%d/%d{" (int_of_nat p.p_cur) (int_of_nat p.p_max) (int_of_nat p.p_nextid));
   List.iter (fun sl ->
